@@ -57,6 +57,10 @@ SKIP_CLASSES = {'EigSolver', 'SVDSolver', 'RankClassifier'}
 THREADS_QUICK = [1, 2, 4, 16]
 THREADS_THOROUGH = [1, 2, 3, 4, 8, 16]
 
+SLOW_CLASSES = {'KCenters': 5, 'PageRankClassifier': 4}     # class -> divisor of the number of cases
+SEARCH_HISTORIES = 60
+SEARCH_BUDGET_S = 40
+
 _GEN = {}
 
 
@@ -491,8 +495,8 @@ def classify_refit(job, refit, fresh):
         extra['shuffle_nodes'] = bool(p['shuffle_nodes'])
     if job['cls'] == 'GNNClassifier':
         # a validation mask drawn by any earlier fit is kept by the object
-        extra['validation'] = any(bool(x.get('kw', {}).get('validation')) for x in
-                                  [job['target']] + [op['input'] for op in job['history'] if op['op'] == 'fit'])
+        extra['validation'] = any(bool(op['input'].get('kw', {}).get('validation')) for op in job['history']
+                                  if op['op'] == 'fit')
     return 'differs:' + ','.join(d), extra, d
 
 
@@ -504,10 +508,16 @@ def est_cases(ctx, job, static_names):
     name = job['cls']
     refit, _ = W.run_history(job)
     fresh_job = dict(job, params=refit['params_after'], history=[])
+    # an explicit seed must determine the result on its own: the state of numpy's global generator is then made
+    # *different* for the runs that are compared; without a seed parameter the global generator is the only handle
+    # the caller has, and it is set equal
+    explicit = 'random_state' in job['params'] or 'random_state' in (job['target'].get('kw') or {})
+    if explicit:
+        fresh_job['np_seed'] = job['np_seed'] + 1
     fresh, obj = W.run_history(fresh_job, trace=_trace_factory)
     if fresh['state'] is not None:
         fresh['state'] = _strip_trace(fresh['state'])
-    again, _ = W.run_history(fresh_job)
+    again, _ = W.run_history(dict(fresh_job, np_seed=fresh_job['np_seed'] + (2 if explicit else 0)))
     cases = []
     desc = {'job': job}
     hist_fits = [op for op in job['history'] if op['op'] == 'fit']
@@ -826,10 +836,10 @@ def run(ctx):
             cases += cs
             ctx.count('corpus')
     # generated histories
-    per_class = 10 if quick else 60
+    per_class = 24 if quick else 150
     sweep_jobs, sweep_inproc = [], {}
     for name in names:
-        k = per_class if name not in ('GNNClassifier', 'KCenters', 'PageRankClassifier', 'NNLinker') else max(4, per_class // 3)
+        k = per_class if name not in SLOW_CLASSES else max(4, per_class // SLOW_CLASSES[name])
         for i in range(k):
             job = make_job(rng, name, n_hist=(0 if i == 0 else None))
             cs, fresh, fj = est_cases(ctx, job, static)
@@ -894,15 +904,19 @@ def search(ctx, pending):
     import warnings
     warnings.simplefilter('ignore')
     rng = ctx.rng
+    import time
     found = []
     static = set(_GEN.get('descs', {}))
+    t_end = time.time() + SEARCH_BUDGET_S
     for kind, sig, obj in pending:
         if sig.get('obligation') == 'historyOK' or (kind == 'correspondence' and str(sig.get('entry', '')).endswith('.fit')):
             name = sig['entry'][:-4]
             if name not in SPEC or name not in W.estimator_classes():
                 continue
             hit = None
-            for i in range(150):
+            for i in range(SEARCH_HISTORIES):
+                if time.time() > t_end:
+                    break
                 # bipartite-then-square histories first (stale attributes), then random ones
                 job = make_job(rng, name, n_hist=rng.choice([1, 2]))
                 if i % 2 == 0:
@@ -926,14 +940,14 @@ def search(ctx, pending):
                 found.append(hit)
             else:
                 found.append({'sig': sig, 'case': {'obligation': obj.get('name'), 'what_no_longer_checks': obj},
-                              'detail': 'no-failing-input-found after 150 generated histories'})
+                              'detail': 'no-failing-input-found after %d generated histories' % SEARCH_HISTORIES})
         elif sig.get('obligation') == 'raceFree':
             loop = sig['loop']
             fname = loop.split(':')[0]
             jobs = [j for j in kernel_jobs(rng, big=True) if j.get('loop') == fname]
             hit = None
             if jobs:
-                bad, res = sweep(ctx, [], jobs, [1, 2, 4, 8, 16], 2, {})
+                bad, res = sweep(ctx, [], jobs, [1, 4, 16] if ctx.quick else [1, 2, 4, 8, 16], 2, {})
                 for job, k2, detail in bad:
                     s2 = dict(sig, kind=k2)
                     if job is not None:
@@ -941,7 +955,7 @@ def search(ctx, pending):
                     hit = {'sig': s2, 'case': {'job': job, 'check': k2}, 'detail': detail}
                     break
             found.append(hit or {'sig': sig, 'case': {'obligation': obj.get('name'), 'what_no_longer_checks': obj},
-                                 'detail': 'no-failing-input-found: thread sweep {1,2,4,8,16} x 2 runs gave identical results'})
+                                 'detail': 'no-failing-input-found: the thread sweep (2 runs per thread count) gave identical results'})
         else:
             found.append({'sig': sig, 'case': {'what_no_longer_checks': obj}, 'detail': 'no-failing-input-found'})
     return found
